@@ -11,6 +11,7 @@ import (
 	"regexp"
 	"runtime"
 	"strings"
+	"sync/atomic"
 	"time"
 
 	"github.com/tetratelabs/wazero"
@@ -35,7 +36,7 @@ var (
 	binA  = buildA()
 	binB  = buildB()
 	binC  = buildC()
-	bins  = [nMods][]byte{binA, binB, binC, buildM(), buildN()}
+	bins  = [nMods][]byte{binA, binB, binC, buildM(), buildN(), nil /* H is a host module */, buildG()}
 	bgctx = context.Background()
 )
 
@@ -199,6 +200,32 @@ func buildN() []byte {
 	return m.Encode()
 }
 
+// buildG: imports the three Go functions of host module H; calls them directly and f1 through a table slot.
+func buildG() []byte {
+	m := &wb.Module{}
+	f1 := m.ImportFunc("H", "f1", i32, i32)
+	f2 := m.ImportFunc("H", "f2", i32, i32)
+	f3 := m.ImportFunc("H", "f3", i32, i32)
+	t0 := m.Type(i32, i32)
+	m.Tables = []wb.Table{{Elem: wb.FuncRef, Lim: wb.Limits{Min: 1, Max: 1, HasMax: true}}}
+	m.Elems = []wb.Elem{{Mode: 0, TableIdx: 0, Offset: wb.CI32(0), Funcs: []uint32{f1}}}
+	m.ExportFunc("call_f1", m.AddFunc(i32, i32, nil, (&wb.Asm{}).LocalGet(0).Call(f1).B))
+	m.ExportFunc("call_f2", m.AddFunc(i32, i32, nil, (&wb.Asm{}).LocalGet(0).Call(f2).B))
+	m.ExportFunc("call_f3", m.AddFunc(i32, i32, nil, (&wb.Asm{}).LocalGet(0).Call(f3).B))
+	m.ExportFunc("call_t", m.AddFunc(i32, i32, nil, (&wb.Asm{}).LocalGet(0).I32Const(0).CallIndirect(t0, 0).B))
+	nameExports(m)
+	return m.Encode()
+}
+
+// hostState is what H's three Go closures capture. Nothing else references it once the harness dropped H, so its
+// finalizer tells whether the closures were collected.
+type hostState struct {
+	val uint32
+	pad [7]uint64
+}
+
+var errHostAsked = errors.New("host function was asked to fail")
+
 const valD = 404
 
 // buildD: imports A.tab, ACTIVE element segment A.tab[0] = d, and then fails to instantiate in the given way.
@@ -277,6 +304,8 @@ var probeFns = [nMods][]string{
 	{"c", "call_pt"},
 	{"ld0"},                        // M: mode 0 = address 100, mode 1 = offset 100 of the last page (as M sees the size)
 	{"rd", "call_ld", "call_ld_t"}, // N: own load, M.ld through the import, M.ld through N's table slot
+	{},                             // H: a host module has no guest-callable probes of its own
+	{"call_f1", "call_f2", "call_f3", "call_t"}, // G: H's closures through the imports and through G's table slot; mode 1: the closure panics with an error
 }
 
 // slots a call site reads (for classification)
@@ -289,20 +318,26 @@ var siteSlots = map[string][]int{
 // ---------------------------------------------------------------- world
 
 type world struct {
-	test      bool // false: twin (closes, drops and collections removed)
-	eng       int
-	cache     wazero.CompilationCache
-	rt        wazero.Runtime
-	comp      [nMods]wazero.CompiledModule
-	inst      [nMods]api.Module
-	fresh     []api.Module
-	failC     [nFailKinds]wazero.CompiledModule // kept compiled modules of D (never closed, never dropped)
-	fill      [nFillers]wazero.CompiledModule   // filler compiled modules (world under test only)
-	sentinels [][]byte                          // blocks of the size of a linear memory, allocated right after each forced collection
-	freshN    int
-	pending   int // close action the host function performs at its next invocation (-1: none)
-	pendX     int
-	hookRan   bool
+	test     bool // false: twin (closes, drops and collections removed)
+	eng      int
+	cache    wazero.CompilationCache
+	rt       wazero.Runtime
+	comp     [nMods]wazero.CompiledModule
+	inst     [nMods]api.Module
+	fresh    []api.Module
+	failC    [nFailKinds]wazero.CompiledModule // kept compiled modules of D (never closed, never dropped)
+	fill     [nFillers]wazero.CompiledModule   // filler compiled modules (world under test only)
+	hbuilder wazero.HostModuleBuilder          // H's builder (dropped with H)
+	hstate   *hostState                        // harness reference to the closures' state (dropped with H)
+	hostVia  bool                              // instantiate H with builder.Instantiate instead of Compile + InstantiateModule
+	// set by the finalizer of hstate
+	hostCollected *atomic.Bool
+	pendingH      int      // close action H.f1's closure performs at its next invocation (-1: none)
+	sentinels     [][]byte // blocks of the size of a linear memory, allocated right after each forced collection
+	freshN        int
+	pending       int // close action the host function performs at its next invocation (-1: none)
+	pendX         int
+	hookRan       bool
 }
 
 func rtConfig(eng int) wazero.RuntimeConfig {
@@ -317,8 +352,8 @@ func rtConfig(eng int) wazero.RuntimeConfig {
 // Code segments are mmap'd monotonically in a fresh process, so whichever direction the kernel uses, in both orders a
 // live module that is reachable through call_indirect from a non-importer (A or C) has the highest code address and
 // the fillers lie in the middle of wazevo's address-sorted module list.
-func newWorld(test bool, eng int, noCache bool, need [nMods]bool, order int) *world {
-	w := &world{test: test, eng: eng, pending: -1}
+func newWorld(test bool, eng int, noCache bool, need [nMods]bool, order int, hostVia bool) *world {
+	w := &world{test: test, eng: eng, pending: -1, pendingH: -1, hostVia: hostVia && test}
 	cfg := rtConfig(eng)
 	if !noCache {
 		w.cache = wazero.NewCompilationCache()
@@ -327,6 +362,10 @@ func newWorld(test bool, eng int, noCache bool, need [nMods]bool, order int) *wo
 	w.rt = wazero.NewRuntimeWithConfig(bgctx, cfg)
 	compile := func(x int) {
 		if !need[x] {
+			return
+		}
+		if x == mH {
+			w.buildHost()
 			return
 		}
 		var err error
@@ -379,7 +418,52 @@ func newWorld(test bool, eng int, noCache bool, need [nMods]bool, order int) *wo
 	}
 	compile(mM)
 	compile(mN)
+	compile(mH)
+	compile(mG)
 	return w
+}
+
+// buildHost creates host module H: three Go closures over one heap-allocated state object —
+// f1 api.GoFunction (also the "call outstanding" close), f2 api.GoModuleFunction, f3 reflection-based WithFunc.
+// mode != 0 makes them panic with an error value.
+func (w *world) buildHost() {
+	st := &hostState{val: 501}
+	flag := &atomic.Bool{}
+	runtime.SetFinalizer(st, func(*hostState) { flag.Store(true) })
+	w.hostCollected = flag
+	w.hstate = st
+	b := w.rt.NewHostModuleBuilder("H")
+	b.NewFunctionBuilder().WithGoFunction(api.GoFunc(func(ctx context.Context, stack []uint64) {
+		if w.test && w.pendingH >= 0 {
+			a := w.pendingH
+			w.pendingH = -1
+			w.closeAction(a, mH)
+			w.collect()
+		}
+		if stack[0] != 0 {
+			panic(errHostAsked)
+		}
+		stack[0] = uint64(st.val)
+	}), []api.ValueType{api.ValueTypeI32}, []api.ValueType{api.ValueTypeI32}).Export("f1")
+	b.NewFunctionBuilder().WithGoModuleFunction(api.GoModuleFunc(func(ctx context.Context, mod api.Module, stack []uint64) {
+		if stack[0] != 0 {
+			panic(errHostAsked)
+		}
+		stack[0] = uint64(st.val + 1)
+	}), []api.ValueType{api.ValueTypeI32}, []api.ValueType{api.ValueTypeI32}).Export("f2")
+	b.NewFunctionBuilder().WithFunc(func(ctx context.Context, mode uint32) uint32 {
+		if mode != 0 {
+			panic(errHostAsked)
+		}
+		return st.val + 2
+	}).Export("f3")
+	w.hbuilder = b
+	if !w.hostVia {
+		var err error
+		if w.comp[mH], err = b.Compile(bgctx); err != nil {
+			fw.Fatalf("compile host module H: %v", err)
+		}
+	}
 }
 
 // hook is the host function imported by every module: the "call outstanding" close.
@@ -507,6 +591,14 @@ func (w *world) do(o op) (out string) {
 	}
 	switch o.K {
 	case kInst:
+		if o.X == mH && w.hostVia {
+			m, err := w.hbuilder.Instantiate(bgctx)
+			if err != nil {
+				return outcome(nil, err)
+			}
+			w.inst[o.X] = m
+			return "ok"
+		}
 		m, err := w.rt.InstantiateModule(bgctx, w.comp[o.X], wazero.NewModuleConfig().WithName(modNames[o.X]))
 		if err != nil {
 			return outcome(nil, err)
@@ -539,10 +631,22 @@ func (w *world) do(o op) (out string) {
 	case kDrop:
 		w.inst[o.X] = nil
 		w.comp[o.X] = nil
+		if o.X == mH {
+			w.hbuilder, w.hstate = nil, nil
+		}
 		return "ok"
 	case kGC:
 		w.collect()
 		return "ok"
+	case kHostReenter:
+		w.pendingH = o.A
+		_, out := w.call(mG, "call_f1", 0)
+		if w.test && w.pendingH >= 0 {
+			w.pendingH = -1
+			return "err:H.f1's closure was not invoked (" + out + ")"
+		}
+		w.pendingH = -1
+		return out
 	case kGrowGuest:
 		_, out := w.call(mN, "grow")
 		return out
